@@ -131,17 +131,30 @@ def gen_cases(rng, tier):
         yield {'op': 'packcall', 'fmt': {'str': ', '.join(fm)}, 'vals': vals, 'lsb0': rng.random() < 0.3, 'mutate_result': True}
     # pp() with usual, odd and unusable formats on every class and on Arrays (printed into a StringIO): documented exceptions only, options unchanged
     PPF = ['bin', 'hex', 'oct', 'bytes', 'bin:8', 'hex:4', 'hex:0', 'bin:0', 'uint:0', 'uint:8', 'int:3', 'float:16', 'float', 'ue', 'bin, hex', 'hex:8, bin:8', 'bin:4, hex:8', 'uint:8, hex',
-           'bits:3', 'bool', 'pad:4', '', 'bogus', 'hex:-4', 'bytes:0', 'oct:3, bin', 'u8', 'f32', 'uintle:16', 'e4m3mxfp', 'mxint', 'bfloat']
+           'bits:3', 'bool', 'pad:4', 'pad8', 'pad:8, hex:8', '', 'bogus', 'hex:-4', 'bytes:0', 'oct:3, bin', 'u8', 'f32', 'uintle:16', 'e4m3mxfp', 'mxint', 'bfloat']
     for _ in range(N // 5):
         cls = rng.choice(CLASSES + ['Array', 'Array'])
         L = rng.choice([0, 1, 3, 8, 16, 24, 33, 64])
         kw = {'stream': {'sio': 1}}
         if rng.random() < 0.5: kw['width'] = rng.choice([0, 1, 20, 80, 120, -5])
         if rng.random() < 0.3: kw['show_offset'] = rng.random() < 0.5
-        if cls != 'Array' and rng.random() < 0.3: kw['sep'] = rng.choice(['', ' ', '--'])
+        if cls != 'Array' and rng.random() < 0.4: kw['sep'] = {'rawstr': rng.choice(['', '', ' ', '--'])}
         args = [{'str': rng.choice(PPF)}] if rng.random() < 0.9 else []
         yield {'op': 'program', 'cls': cls, 'bits': rand_bits(rng, L), 'lsb0': rng.random() < 0.3, 'pos': 0, 'adtype': rng.choice(['uint8', 'int4', 'float16', 'hex4', 'bytes1']),
                'steps': [{'k': 'call', 'name': 'pp', 'args': args, 'kwargs': kw}, {'k': 'getprop', 'name': 'len' if False else ('itemsize' if cls == 'Array' else 'len')}]}
+    # statements with extreme but well-typed values (steps, counts, positions far beyond any length), each run in its OWN interpreter: a crash of the
+    # interpreter (a segmentation fault in the C layer below) is the worst kind of internal error and would take the check down with it
+    HUGE = ['10**20', '2**63-1', '2**63', '-10**20', '2**64+1']
+    STMTS = ['a[2::{h}] = 1', 'a[::{h}] = 1', 'a[1:3:{h}] = 0', 'a.set(0, range(2, 3, {h}))', 'a.set(1, range(0, 3, {h}))', 'a[2:3:{h}] = "0b1"', 'del a[2:3:{h}]', 'x = a[2:3:{h}]', 'x = a[{h}:]',
+             'a.invert(range(2, 3, {h}))', 'a.rol({h})', 'a.ror({h})', 'a <<= {h}', 'x = a >> {h}', 'a.insert("0b1", {h})', 'x = a[{h}]', 'x = list(a.cut({h}))', 'x = a.find("0b1", {h})',
+             'x = a.findall("0b1", count={h})', 'a.byteswap({h})', 'a.reverse({h})', 'x = a.startswith("0b1", {h})', 'a.overwrite("0b1", {h})', 'x = a.unpack("uint:{h}")', 'a.replace("0b1", "0b0", count={h})',
+             'x = list(a.split("0b1", count={h}))', 'b = BitStream(a); b.pos = 1; x = b.read({h})', 'b = BitStream(a); b.bytepos = {h}', 'x = Array("uint8", [1, 2, 3])[::{h}]', 'c = Array("uint8", [1, 2, 3]); c[::{h}] = [9]',
+             'c = Array("uint8", [1, 2, 3]); del c[::{h}]', 'c = Array("uint8", [1, 2, 3]); c.insert({h}, 4)', 'c = Array("uint8", [1, 2, 3]); x = c.pop({h})']
+    for _ in range(24 if tier == 'quick' else 400):
+        yield {'op': 'crashprobe', 'stmts': [rng.choice(STMTS).format(h=rng.choice(HUGE)) for _ in range(6)], 'lsb0': rng.random() < 0.4, 'bits': rand_bits(rng, rng.choice([3, 8, 17]), 'rand')}
+    for _ in range(N // 40):
+        yield {'op': 'program', 'cls': 'Array', 'bits': '', 'lsb0': False, 'pos': 0, 'adtype': 'float16',
+               'steps': [{'k': 'autoscale', 'fmt': rng.choice(['e4m3mxfp', 'e5m2mxfp', 'e3m2mxfp', 'e2m1mxfp', 'p4binary', 'mxint', 'float16']), 'vals': rng.choice([['inf'], [1.0, '-inf'], ['nan'], [0.0], [], [1e300], [5e-324], [1.0, 'inf', 'nan']])}]}
     # exp-Golomb codes cut short by one to three bits, read through every reading method: the position must stay valid
     from props.c10 import ref_enc
     for _ in range(N // 8):
@@ -224,6 +237,16 @@ def run_impl(c):
             cache_ok = all(Bits(v['str']).bin == v['str'][2:] for v in c['vals'] if isinstance(v, dict) and 'str' in v and v['str'].startswith('0b'))
             return snap + [before == after and cache_ok]
         return attempt(f)
+    if op == 'crashprobe':
+        import subprocess, sys as _sys
+        prog = ('import sys; sys.path.insert(0, %r)\nimport bitstring\nfrom bitstring import *\nbitstring.options.lsb0 = %r\n' % (REPO, bool(c['lsb0'])) +
+                'import signal; signal.alarm(20)\nout = []\nfor st in %r:\n    a = BitArray(bin=%r)\n    try:\n        exec(st)\n        out.append("ok")\n'
+                '    except MemoryError: out.append("MemoryError")\n    except Exception as e: out.append(type(e).__name__)\n    if len(a) != len(a.bin): out.append("len")\nprint("|".join(out))\n' % (c['stmts'], c['bits']))
+        try:
+            pr = subprocess.run([_sys.executable, '-c', prog], capture_output=True, text=True, timeout=60)
+            return ('ok', [pr.returncode, pr.stdout.strip().split('|') if pr.stdout.strip() else [], pr.stderr[-200:]])
+        except subprocess.TimeoutExpired:
+            return ('ok', [124, [], 'timeout'])
     if op == 'dtypecall':
         def f():
             kw = {} if c['scale'] is None else {'scale': c['scale']}
@@ -246,6 +269,10 @@ def run_impl(c):
     for st in c['steps']:
         before = snapshot(s)
         def f():
+            if st['k'] == 'autoscale':
+                vals = [float(v) if isinstance(v, str) else v for v in st['vals']]
+                a2 = Array(Dtype(st['fmt'], scale='auto'), vals)
+                return [repr(a2.dtype.scale)]
             if st['k'] == 'getprop': return drain(getattr(s, st['name']))
             if st['k'] == 'setprop': setattr(s, st['name'], mat(st['v'], s)); return None
             m = getattr(s, st['name'])
@@ -273,6 +300,15 @@ def bad_exc(r, ctx=None):
 
 def oracle(c, obs):
     op = c['op']
+    if op == 'crashprobe':
+        rc, outs, err = obs[1]
+        if rc == 124: return None                     # an infeasible size made a statement run out of time: outside the property
+        if rc != 0: return f"the interpreter died (exit status {rc}) while running, on BitArray(bin={c['bits']!r}) with lsb0={c['lsb0']}, one of: {c['stmts']}  {err[-100:]}"
+        for st, o in zip(c['stmts'], [x for x in outs if x != 'len']):
+            if o not in ('ok', 'MemoryError', 'OverflowError') and o not in ALLOWED and 'Other:' + o not in ALLOWED and o not in ('ValueError', 'IndexError', 'TypeError', 'ReadError', 'Error', 'CreationError', 'InterpretError', 'ByteAlignError'):
+                return f"{st!r} on BitArray(bin={c['bits']!r}) (lsb0={c['lsb0']}) raised {o}"
+        if 'len' in outs: return f"len(a) != len(a.bin) after one of {c['stmts']}"
+        return None
     if op in ('constructor', 'packcall', 'dtypecall'):
         if bad_exc(obs, c): return f"{op} {dict((k, v) for k, v in c.items() if k != 'op')} raised {obs[1]}"
         if obs[0] == 'ok' and op != 'dtypecall' and obs[1][2] != len(obs[1][1]): return f"{op}: len != len(bin)"
@@ -280,7 +316,7 @@ def oracle(c, obs):
             return f"pack({c['fmt']}, {c['vals']}) (lsb0={c.get('lsb0')}) changed an immutable operand or the cached parse of a string operand (possibly once its result was mutated)"
         return None
     for st, (before, r, after, opts, frozen_ok) in zip(c['steps'], obs[1]):
-        where = f"{c['cls']}({before[1][:40]!r}, pos={before[3]}, lsb0={c['lsb0']}).{st['name']}" + (f"({st.get('args')}, {st.get('kwargs')})" if st['k'] == 'call' else f" {st['k']} {st.get('v')}")
+        where = f"{c['cls']}({before[1][:40]!r}, pos={before[3]}, lsb0={c['lsb0']}).{st.get('name', st['k'])}" + (f"({st.get('args')}, {st.get('kwargs')})" if st['k'] == 'call' else f" {st['k']} {st.get('v')}")
         if bad_exc(r, st): return f"{where} raised {r[1]}"
         if after[2] != len(after[1]): return f"{where}: len(s)={after[2]} but len(s.bin)={len(after[1])}"
         if len(after) > 4 and after[4]: return f"{where} left the Array unusable: {after[4]}"
